@@ -64,8 +64,17 @@ def run_case(c):
     out['is_dict'] = type(d) is dict
     # direct predicates --------------------------------------------------
     try:
-        ref = rt.ref_encode(x, cfg, reg)
-        out['ref_ok'] = rt.show(rt.demix(d), reg) == rt.show(ref, reg) and rt.demix(d) == ref
+        ref = rt.ref_encode(x, dict(cfg, lib_keys=True) if c.get('wild_names') else cfg, reg)
+        if c.get('subclasses'):
+            # values of user subclasses: the result may keep the subclass where the library keeps the container type
+            # (as for namedtuple); it must be == the documented encoding and serialise to the same JSON text
+            out['ref_ok'] = rt.demix(d) == ref
+            try:
+                out['ref_ok'] = out['ref_ok'] and json.dumps(d, sort_keys=False) == json.dumps(ref, sort_keys=False)
+            except (TypeError, ValueError):
+                pass
+        else:
+            out['ref_ok'] = rt.show(rt.demix(d), reg) == rt.show(ref, reg) and rt.demix(d) == ref
         if not out['ref_ok']:
             out['ref_show'] = rt.show(ref, reg)[:2000]
     except BaseException as e:
